@@ -19,7 +19,7 @@ case "$cmd" in
     cp /verif/known_findings.json "$S/out/"; cp -r /verif/findings "$S/out/" 2>/dev/null
     for p in "$@"; do git -C "$S/repo" apply "$p" || { echo "patch $p does not apply"; exit 2; }; done
     # reuse compiled third-party crates
-    if [ -d /verif/sim/target ] && [ ! -d "$S/sim/target" ]; then cp -al /verif/sim/target "$S/sim/target" 2>/dev/null || cp -a /verif/sim/target "$S/sim/target"; fi
+    if [ -d /verif/sim/target ] && [ ! -d "$S/sim/target" ]; then cp -a /verif/sim/target "$S/sim/target"; fi
     echo "$S"
     ;;
   run)
